@@ -111,7 +111,7 @@ def gen_record(r: _random.Random, own_prio: int, now_ms: int, malformed: bool) -
     if malformed:
         k = r.randrange(12)
         if k == 0:
-            rec['priority'] = r.choice([None, 'high', [1], {'p': 1}])
+            rec['priority'] = r.choice([None, 'high', '7', [1], {'p': 1}])
         elif k == 1:
             rec['priority'] = r.choice([True, False])
         elif k == 2:
@@ -157,12 +157,12 @@ def oracle_tables(status: Any) -> tuple[dict, dict]:
         for info in status.values():
             if not isinstance(info, dict):
                 continue
-            lf = info.get('lifetime')
-            if isinstance(lf, str):
-                try:
-                    oint[lf] = int(lf)
-                except ValueError:
-                    oint[lf] = None
+            for lf in (info.get('lifetime'), info.get('priority')):
+                if isinstance(lf, str):
+                    try:
+                        oint[lf] = int(lf)
+                    except ValueError:
+                        oint[lf] = None
             ls = info.get('lastseen')
             if isinstance(ls, str):
                 try:
@@ -495,13 +495,13 @@ def run(ctx: fw.Ctx) -> int:
         ctx.correspondence_break('model build', logtxt[-1500:])
         return ctx.finish(RULE)
 
-    ev = event_cases(ctx, ctx.scale(1500, 20000))
+    ev = event_cases(ctx, ctx.scale(1500, 16000))
     ctx.differential('event', HEADER, ev, shard=150)
     ka = keepalive_cases(ctx)
     ctx.differential('keepalive', HEADER, ka, shard=150)
     ctx.cov['exhaustive'] = {'keepalive': 'lifetime 0..120 x jitter 5..10 = 726 runs of the real keepalive()'}
 
-    pn.run_networks(ctx, NET_HEADER, ctx.scale(120, 1200))
+    pn.run_networks(ctx, NET_HEADER, ctx.scale(120, 1000))
     pn.run_worlds(ctx, ctx.scale(40, 600))
     return ctx.finish(RULE, level_note=[
         'whole-operator scenarios (kv.sim + kv.fakeapi: real kopf.operator() x 2-3 on one ClusterKopfPeering) are monitor-only',
